@@ -1196,6 +1196,10 @@ func (e *Engine) evalCall(y *ECall, env *evalEnv) Val {
 		// sync.Mutex/RWMutex Lock, cleared by Unlock; the identity of the mutex instance is not tracked)
 		e.initHeap("lock_held", "Bool")
 		return Val{S: e.heap(env.st, "lock_held", "Bool"), T: specBool}
+	case "lockcount":
+		// lockcount(): how many times the executing goroutine has acquired the lock so far
+		e.initHeap("lock_count", "Int")
+		return Val{S: e.heap(env.st, "lock_count", "Int"), T: specInt}
 	case "called":
 		if id, ok := y.Args[0].(*EIdent); ok {
 			v, _ := e.specConst("called_"+mangle(id.Name), env)
